@@ -62,8 +62,10 @@ def norm_cdata(cp_spec, cdata):
     return out
 
 
-def data_eq(spec, cdata, cmeta, amdata):
-    """C snapshot vs AM data image; also the terminator invariant for terminated strings"""
+def data_eq(spec, cdata, cmeta, amdata, written=None):
+    """C snapshot vs AM data image; also the terminator invariant for terminated strings.  `written`: names of strings whose buffer is known to have been
+    written (by the parser earlier in this run, or by the harness when it forced the context; None = unknown): those, and strings with a default value, must be
+    empty C strings when their length is 0 - start() does not terminate a string it never writes, so nothing is asked of the others"""
     for nm, o in spec.items():
         cv, av = cdata[nm], amdata[nm]
         if o.type == T.INT:
@@ -72,7 +74,7 @@ def data_eq(spec, cdata, cmeta, amdata):
             return "%s: counter>0 with NULL pointer" % nm
         if cv != av:
             return "%s: C=%r AM=%r" % (nm, cv, av)
-        if o.type == T.STR and o.str_null and cmeta.get(nm) not in (0, "nullptr") and len(av) > 0:
+        if o.type == T.STR and o.str_null and cmeta.get(nm) not in (0, "nullptr") and (len(av) > 0 or o.default_value is not None or (written is not None and nm in written)):
             return "%s: missing NUL terminator (byte %r)" % (nm, cmeta.get(nm))
     return None
 
@@ -209,6 +211,7 @@ def replay_input(cp, am, data, end=False, chunkings=("one", "bytes")):
             return "C run %s on input %r (%s): %s" % (status, bytes(data), mode, cp.stderr[-300:]), ncalls
         # split records per call
         ri = 0
+        written = set()
         for c in calls:
             hooks = []
             while ri < len(recs) and recs[ri][0] == "H":
@@ -226,13 +229,14 @@ def replay_input(cp, am, data, end=False, chunkings=("one", "bytes")):
             if [(h[1], h[2]) for h in hooks] != [(h[0], h[1]) for h in c[3]]:
                 return "hook sequence C=%r machine=%r; input %r (%s)" % ([(h[1], h[2]) for h in hooks], [(h[0], h[1]) for h in c[3]], bytes(data), mode), ncalls
             for hc, ha in zip(hooks, c[3]):
-                d = data_eq(am.spec, hc[4], hc[5], ha[2])
+                d = data_eq(am.spec, hc[4], hc[5], ha[2], written)
+                written |= {nm for nm, o in am.spec.items() if o.type == T.STR and len(ha[2][nm]) > 0}
                 if d:
                     return "outputs visible to hook %s: %s; input %r (%s)" % (hc[1], d, bytes(data), mode), ncalls
         n = recs[ri] if ri < len(recs) else None
         if n is None or n[0] != "N":
             return "missing final snapshot", ncalls
-        d = data_eq(am.spec, n[2], n[3], cfg["data"])
+        d = data_eq(am.spec, n[2], n[3], cfg["data"], written)
         if d:
             return "final outputs: %s; input %r (%s)" % (d, bytes(data), mode), ncalls
     return None, ncalls
